@@ -75,13 +75,13 @@ func (d *dumper) dump(v reflect.Value, depth int) {
 			}
 			return
 		case big.Float:
-			d.w("bigfloat(%s)", bigFloatText(&x))
+			d.w("bigfloat(%s%s)", bigFloatText(&x), bigFloatFlags(&x))
 			return
 		case *big.Float:
 			if x == nil {
 				d.w("(*bigfloat)nil")
 			} else {
-				d.w("*bigfloat(%s)", bigFloatText(x))
+				d.w("*bigfloat(%s%s)", bigFloatText(x), bigFloatFlags(x))
 			}
 			return
 		case apd.Decimal:
@@ -238,4 +238,15 @@ func (d *dumper) dump(v reflect.Value, depth int) {
 	default:
 		d.w("<%s>", v.Kind().String())
 	}
+}
+
+// dumpBigFloatFlags: also show a big.Float's accuracy flag and rounding mode (C18 only: they are part of
+// the caller's value, not of the data that is written)
+var dumpBigFloatFlags bool
+
+func bigFloatFlags(x *big.Float) string {
+	if !dumpBigFloatFlags {
+		return ""
+	}
+	return fmt.Sprintf(" acc=%v mode=%v", x.Acc(), x.Mode())
 }
